@@ -8,6 +8,7 @@
                                         Gen.C01net.mna_sem), probe_* (hand model of kill/apply_test_*/Isc/impedance/
                                         admittance/transfer), thevenin_net_rel, norton_net_rel, net_ground_indep
              props/C04ex.v              impedance_kills_ics_refuted (probe model without IC killing is wrong)
+             props/C04mna.v             mna_port_affine: the same through the stamps regenerated from lcapy/mnacpts.py (Gen.C01net.mna_sem)
   correspond generated circuits x ports x loads through the REAL probes (tools/impl_thevenin.py); inside Coq (Qc):
              the model netlist reproduces Lcapy's A and Z, a left inverse certifies well-posedness, and for every probe
              the hand model's netlist (kill + test source / short) is solved by a witness whose port reading equals what
@@ -723,6 +724,13 @@ ORACLE_PROBES = {'ident_voc': ['Z'], 'ident_zy': ['Z', 'Y'], 'th_voc': [], 'th_z
                  'load_thev': ['thZ'], 'load_nort': ['noY'], 'line_thev': ['thZ'], 'line_nort': ['noY']}
 
 
+def classify(probe, failed, passed_diag, has_ic):
+    """key for a correspondence difference of one probe in one case"""
+    if has_ic and probe in ('Z', 'Y', 'thZ', 'noY', 'H') and (probe, 'icskept') in passed_diag:
+        return '%s:ics-kept' % METHOD[probe]
+    return 'correspondence:%s' % probe
+
+
 def run(tier='quick', replay=None):
     res = core.Result(PID, tier)
     rng = random.Random(core.seed() * 104729 + 4)
@@ -743,25 +751,7 @@ def run(tier='quick', replay=None):
         cases = gen_cases(rng, tier)
         if replay and 'case' in replay:
             cases = [replay['case']]
-        # ---- real code, in the background ----
-        tr_box = {}
-        wres_box = {}
-
-        def impl():
-            try:
-                tr0 = TS.StampTranslator(os.path.join(core.REPO, 'lcapy', 'mnacpts.py'))
-                tr0.translate_all()
-                tp = tr0.tp_src
-            except Exception:
-                tp = {}
-            for c_ in cases:
-                c_['tp_src'] = tp
-                c_['timeout'] = 75 if tier == 'quick' else 150
-                c_['step'] = 10 if tier == 'quick' else 25
-            wres_box['r'] = core.run_impl('impl_thevenin.py', cases, timeout=1500 if tier == 'quick' else 7200)
-        th_impl = threading.Thread(target=impl)
-        th_impl.start()
-        # ---- translate + prove ----
+        # ---- translate ----
         log('translate')
         texts = {}
         tr = None
@@ -773,8 +763,22 @@ def run(tier='quick', replay=None):
             res.failed_obl.append(('translate', 'lcapy/mnacpts.py', str(e)))
             res.obligations += 1
             tr = None
+        # ---- real code, in the background ----
+        wres_box = {}
+        for c_ in cases:
+            c_['tp_src'] = tr.tp_src if tr is not None else {}
+            c_['timeout'] = 75 if tier == 'quick' else 150
+            c_['step'] = 10 if tier == 'quick' else 25
+
+        def impl():
+            wres_box['r'] = core.run_impl('impl_thevenin.py', cases, timeout=1500 if tier == 'quick' else 7200)
+        th_impl = threading.Thread(target=impl)
+        th_impl.start()
+        # ---- prove ----
         model_ok = False
         allr = {}
+        rest_box = {}
+        th_rest = None
         if tr is not None:
             w.write('StampsGen.v', texts['StampsGen.v'])
             ok, out, secs = core.coqc(w.dir, 'StampsGen.v')
@@ -782,7 +786,7 @@ def run(tier='quick', replay=None):
                 res.failed_obl.append(('StampsGen', 'StampsGen.v', out[-800:]))
                 res.obligations += 1
             else:
-                for f in ('C01model.v', 'C01.v', 'C01net.v', 'C04model.v', 'C04.v', 'C04ex.v'):
+                for f in ('C01model.v', 'C01.v', 'C01net.v', 'C04model.v', 'C04.v', 'C04ex.v', 'C04mna.v'):
                     texts[f] = open(os.path.join(core.VERIF, 'coq', 'props', f)).read()
                     w.write(f, texts[f])
                 bad = core.gate_text('generated+props', '\n'.join(texts.values()))
@@ -791,21 +795,213 @@ def run(tier='quick', replay=None):
                     res.obligations += 1
                 log('coqc props')
                 r0 = core.coqc_many(w.dir, ['C01model.v'], timeout=600)
-                r1 = core.coqc_many(w.dir, ['C01.v', 'C04model.v'], timeout=1500) if r0['C01model.v'][0] else {}
-                model_ok = bool(r1) and r1['C04model.v'][0]
                 allr.update(r0)
-                allr.update(r1)
-    finally_props = None
+                if r0['C01model.v'][0]:
+                    allr.update(core.coqc_many(w.dir, ['C04model.v'], timeout=600))
+                model_ok = allr.get('C04model.v', (False,))[0]
 
-        def prove_rest():
-            """C01net -> C04 -> C04ex (sequential dependencies); runs while the cases are evaluated"""
-            out = {}
-            if allr.get('C01.v', (False,))[0] and allr.get('C01model.v', (False,))[0]:
-                out.update(core.coqc_many(w.dir, ['C01net.v'], timeout=900))
-                if out['C01net.v'][0] and model_ok:
-                    out.update(core.coqc_many(w.dir, ['C04.v'], timeout=1500))
-                    if out['C04.v'][0]:
-                        out.update(core.coqc_many(w.dir, ['C04ex.v'], timeout=600))
-            return out
-    except Exception:
-        raise
+                def prove_rest():
+                    """(C01 -> C01net) || (C04 -> C04ex), then C04mna; runs while the real code and the cases are evaluated"""
+                    o = rest_box
+                    if not allr.get('C01model.v', (False,))[0]:
+                        return
+                    first = ['C01.v'] + (['C04.v'] if model_ok else [])
+                    o.update(core.coqc_many(w.dir, first, timeout=1500))
+                    second = (['C01net.v'] if o['C01.v'][0] else []) + (['C04ex.v'] if o.get('C04.v', (False,))[0] else [])
+                    if second:
+                        o.update(core.coqc_many(w.dir, second, timeout=900))
+                    if o.get('C01net.v', (False,))[0] and o.get('C04.v', (False,))[0]:
+                        o.update(core.coqc_many(w.dir, ['C04mna.v'], timeout=600))
+                th_rest = threading.Thread(target=prove_rest)
+                th_rest.start()
+        for f in ('Thevenin.v', 'TheveninOnePort.v'):
+            names = core.obligations_in(open(os.path.join(core.COQ_THEORY, f)).read())
+            res.obligations += len(names)
+            res.discharged += len(names)
+            bad = core.gate_text(f, open(os.path.join(core.COQ_THEORY, f)).read())
+            if bad:
+                res.failed_obl.append(('gate', f, '; '.join(bad)))
+                res.obligations += 1
+
+        th_impl.join()
+        wres = wres_box['r']
+        log('impl done')
+        # ---- correspondence items ----
+        items = []
+        infos = {}
+        nprog = 0
+        for ci, (case, wr) in enumerate(zip(cases, wres)):
+            if 'error' in wr:
+                res.count('impl_error:' + wr['error'].split(':')[0])
+                infos[ci] = {}
+                continue
+            nprog += 1
+            for t in case.get('tags', []):
+                res.count('tag_' + t)
+            for k, v in wr['api'].items():
+                if isinstance(v, dict):
+                    res.count('api_error_%s:%s' % (k, v['error'].split(':')[0]))
+                elif not k.endswith('_repr'):
+                    res.count('api_value_' + k)
+            if tr is None or not model_ok:
+                infos[ci] = {}
+                continue
+            if case['mode'] == 'net':
+                its, info = build_net_items(ci, case, wr, tr, res)
+                res.count('kind_' + str(wr.get('kind')))
+                res.count('load_' + case.get('loadline', {}).get('kind', 'none'))
+            else:
+                its, info = build_tree_items(ci, case, wr, res)
+            infos[ci] = info
+            for it in its:
+                it['gi'] = len(items)
+                it['ci'] = ci
+                items.append(it)
+            nontriv = any(not isinstance(v, dict) for k, v in wr['api'].items() if not k.endswith('_repr')) and bool(its)
+            fp = json.dumps([case.get('netlist'), case.get('port'), case.get('tree'), case.get('load')], sort_keys=True)
+            res.add_case(fp, nontriv, {'netlist': case.get('netlist'), 'port': case.get('port'), 'load': case.get('load'),
+                                       'api': {k: v for k, v in wr['api'].items() if not isinstance(v, dict)}} if len(res.samples) < 4 and nontriv else None)
+        res.programs = nprog
+        failing = set()
+        evaluated = set()
+        if items:
+            shards, cur, cur_c = [], [], set()
+            per = 120
+            for it in items:
+                if len(cur) >= per and it['ci'] not in cur_c:
+                    shards.append(cur)
+                    cur, cur_c = [], set()
+                cur.append(it)
+                cur_c.add(it['ci'])
+            if cur:
+                shards.append(cur)
+            fns = []
+            for si, sh in enumerate(shards):
+                w.write('cases_%d.v' % si, cases_file(sh))
+                fns.append('cases_%d.v' % si)
+            log('coqc %d case files' % len(fns))
+            cr = core.coqc_many(w.dir, fns, timeout=900)
+            log('cases done')
+            for si, f in enumerate(fns):
+                ok, out, secs = cr[f]
+                fl = core.parse_eval_list(out) if ok else None
+                if fl is None:
+                    res.failed_obl.append(('correspondence_eval', f, out[-700:]))
+                    res.obligations += 1
+                else:
+                    failing.update(fl)
+                    evaluated.update(it['gi'] for it in shards[si])
+            res.extra['traces_validated_against_impl'] = len(evaluated)
+        if th_rest is not None:
+            th_rest.join()
+            allr.update(rest_box)
+            for f in ('C01.v', 'C01net.v', 'C04.v', 'C04ex.v', 'C04mna.v'):
+                if f not in allr:
+                    res.failed_obl.append((f[:-2], f, 'not checked: a prerequisite file failed'))
+                    res.obligations += 1
+            res.coq_results(w.dir, allr, {f: texts[f] for f in allr})
+            res.extra['coq_seconds'] = {f: round(r[2], 1) for f, r in allr.items()}
+        log('props done')
+
+        # ---- interpret ----
+        by_case = {}
+        for it in items:
+            if it['gi'] not in evaluated:
+                continue
+            by_case.setdefault(it['ci'], []).append(it)
+        seen = set()
+        have_input = False
+        for ci, (case, wr) in enumerate(zip(cases, wres)):
+            if 'error' in wr:
+                continue
+            info = infos.get(ci, {})
+            its = by_case.get(ci, [])
+            failed = set((it['probe'], it['role']) for it in its if it['gi'] in failing)
+            passed = set((it['probe'], it['role']) for it in its if it['gi'] not in failing)
+            main_failed = sorted(p for p, r in failed if r == 'main')
+            orc = oracle(case, wr, info)
+            for nm, detail in orc:
+                res.counterexamples.append({'case': case, 'oracle': nm, 'detail': detail})
+            has_ic = bool(info.get('has_ic'))
+            keys = {}
+            if case['mode'] == 'net':
+                for pb in main_failed:
+                    keys[pb] = classify(pb, failed, passed, has_ic)
+                    res.disagreements.append({'check': '%d/%s' % (ci, pb), 'key': keys[pb]})
+                explained = has_ic and main_failed and all(k.endswith(':ics-kept') for k in keys.values())
+                for nm, detail in orc:
+                    key = 'oracle:' + nm
+                    if explained:
+                        cand = [pb for pb in ORACLE_PROBES.get(nm, []) if pb in keys]
+                        if nm in ('th_voc', 'th_z', 'no_isc', 'no_y'):
+                            cand = []
+                        if cand:
+                            key = keys[cand[0]]
+                    keys['oracle:' + nm] = key
+            else:
+                # one-port trees: ParSer.Voc / ParSer.Isc return 0 unless an INDEPENDENT source is below (6-F9)
+                api = wr['api']
+                sc = Fraction(case['s0']) if case['profile'] == 'dc' else 1
+                for pb in main_failed:
+                    key = 'correspondence:oneport.%s' % pb
+                    if has_ic and pb in ('Voc', 'thVoc', 'Isc', 'noIsc', 'thZ', 'noY', 'shape'):
+                        bth, bno = info.get('bth'), info.get('bno')
+                        v = fr(api.get(pb))
+                        exp = None
+                        if pb in ('Voc', 'thVoc') and bth is not None:
+                            exp = bth[0]
+                        if pb in ('Isc', 'noIsc') and bno is not None:
+                            exp = bno[0]
+                        if exp is not None and v is not None and v * sc == exp:
+                            key = 'OnePort.%s:ics-ignored' % {'Voc': 'Voc', 'Isc': 'Isc', 'thVoc': 'thevenin', 'noIsc': 'norton'}[pb]
+                        if pb in ('thZ', 'noY') and (('thVoc', 'main') in failed or ('noIsc', 'main') in failed or
+                                                       ('Voc', 'main') in failed or ('Isc', 'main') in failed):
+                            # thevenin()/norton() take the dc branch (Z.subs(0)) when the ignored initial condition makes Voc/Isc vanish
+                            key = 'OnePort.%s:ics-ignored' % ('thevenin' if pb == 'thZ' else 'norton')
+                    keys[pb] = key
+                    res.disagreements.append({'check': '%d/oneport.%s' % (ci, pb), 'key': key})
+                explained = has_ic and main_failed and all(k.endswith(':ics-ignored') for k in keys.values())
+                for nm, detail in orc:
+                    key = 'oracle:oneport.' + nm
+                    if explained:
+                        m_ = {'ident_voc': 'Voc', 'load_thev': 'thevenin', 'line_thev': 'thevenin', 'load_nort': 'norton', 'line_nort': 'norton',
+                              'th_voc': 'thevenin', 'th_z': 'thevenin', 'no_isc': 'norton', 'no_y': 'norton', 'ident_zy': None}.get(nm)
+                        if m_:
+                            key = 'OnePort.%s:ics-ignored' % m_
+                    keys['oracle:' + nm] = key
+            orc_d = dict(orc)
+            for name, key in keys.items():
+                is_or = name.startswith('oracle:')
+                if is_or:
+                    have_input = True
+                if key in seen:
+                    continue
+                seen.add(key)
+                small = {k: v for k, v in case.items() if k not in ('tp_src',)}
+                if is_or:
+                    violations.append({'key': key, 'what': 'outputs of the real code violate %s: %s' % (name[7:], orc_d[name[7:]]),
+                                       'case': small, 'api': wr['api'], 'load': wr.get('load'), 'found_input': True})
+                else:
+                    exp = info.get('model', {}).get({'thVoc': 'Voc', 'thZ': 'Z', 'noIsc': 'Isc', 'noY': 'Y'}.get(name, name))
+                    # a correspondence difference on a concrete circuit is itself an input on which the probe's value is not the
+                    # Thevenin quantity of the (Coq-validated) model; confirmed independently when an oracle also fails on it
+                    violations.append({'key': key, 'what': 'probe %s: Lcapy returned %s, model value %s' % (name, wr['api'].get(name), exp),
+                                       'case': small, 'api': wr['api'], 'found_input': bool(orc),
+                                       'correspondence': 'Gen.C04model (c_%s)' % name})
+        res.rule = ('net: vlib/netgen random connected netlists (profiles dc / s / ivp; dependent sources, transformer, gyrator, mutual inductance, '
+                    'two-ports, wires, ammeters; every 4th circuit floating = ground renamed) x random node pair (port) x random load '
+                    '{R, RC, RL, RLC, source+R} x optional second port for transfer, plus a fixed corpus; oneport: random series/parallel trees '
+                    '(depth <= 3) of R, C, L, V, I leaves (initial conditions in profile ivp); non-trivial = at least one probe returned a value '
+                    'and a Coq comparison was generated; distinct = distinct (netlist/tree, port, load)')
+        for name, f, msg in res.failed_obl:
+            violations.append({'key': 'obligation:' + name, 'what': 'Coq obligation %s in %s no longer checks' % (name, f),
+                               'theorem': name, 'file': f, 'message': msg, 'found_input': False,
+                               'note': 'failing inputs found by the oracles are reported as separate violations' if have_input else ''})
+        return core.finish(res, violations)
+    finally:
+        if not os.environ.get('VERIF_KEEP'):
+            w.cleanup()
+
+
+if __name__ == '__main__':
+    sys.exit(run(sys.argv[1] if len(sys.argv) > 1 else 'quick'))
